@@ -5,17 +5,25 @@
 // through operator[], iterators and data(), front/back, iterator distance, returned iterators, and the capacity / allocated_memory()
 // accounting contract (see cap_* below). The model is a plain array + length; its operations are written from the std::vector contract.
 #include <verif.h>
-#include <prevector.h>
+#include <algorithm>
+#include <cassert>
+#include <cstddef>
+#include <cstdint>
+#include <cstdlib>
+#include <cstring>
+#include <iterator>
+#include <new>
+#include <ranges>
+#include <type_traits>
 #include <utility>
+// the harness reads/pins the raw _size field (see pin() below): open the class for this TU only (layout is unaffected; all standard headers
+// used by prevector.h are included above so that the macro touches nothing else)
+#define private public
+#include <prevector.h>
+#undef private
 
 enum { K_NONE = 0, K_PUSH, K_POP, K_INS1, K_INSN, K_INSR, K_ERASE1, K_ERASER, K_RESIZE, K_RESIZEU, K_ASSIGN, K_ASSIGNR, K_RESERVE, K_SHRINK, K_CLEAR,
        K_SWAP, K_COPYCTOR, K_MOVE, K_COPYASG, K_MOVEASG, K_SETAT, K_CMP, K_EMPLACE };
-
-// private member access (explicit instantiation ignores access control)
-template <class PV, uint32_t PV::*M> struct RobSize { friend uint32_t& rawsize_of(PV& v) { return v.*M; } };
-template struct RobSize<prevector<4, uint32_t>, &prevector<4, uint32_t>::_size>;
-template struct RobSize<prevector<36, uint8_t>, &prevector<36, uint8_t>::_size>;
-uint32_t& rawsize_of(prevector<4, uint32_t>&); uint32_t& rawsize_of(prevector<36, uint8_t>&);
 
 template <class T> static inline T draw();
 template <> inline uint8_t draw<uint8_t>() { return nondet_u8(); }
@@ -31,14 +39,16 @@ struct Drv {
     // ---- verdict accumulators (one assertion per kind at the end keeps the number of solver goals small)
     bool ok_size = true, ok_elem = true, ok_fb = true, ok_iter = true, ok_ret = true, ok_cap = true, ok_mem = true, ok_other = true, ok_stable = true, ok_cmp = true, ok_bound = true, ok_rep = true;
 
+    // NOTE: no array is indexed with a symbolic expression here: a (compiler-inserted) bounds-check trap on a symbolic index is an early
+    // function exit that symex cannot discard, and the state merged from it would undo the pin() below.
     void m_insert(unsigned pos, unsigned c, const T* vals)
     {
         if (n + c > CAP) { ok_bound = false; return; }
         T b[CAP];
         for (int i = 0; i < CAP; i++) b[i] = a[i];
         for (int i = 0; i < CAP; i++) {
-            if ((unsigned)i >= pos && (unsigned)i < pos + c) a[i] = vals[(unsigned)i - pos];
-            else if ((unsigned)i >= pos + c && (unsigned)i < n + c) a[i] = b[(unsigned)i - c];
+            if ((unsigned)i >= pos + c && (unsigned)i < n + c && (unsigned)i >= c) a[i] = b[(unsigned)i - c];
+            for (int j = 0; j < CAP; j++) if ((unsigned)j < c && (unsigned)i == pos + (unsigned)j) a[i] = vals[j];
         }
         n += c;
     }
@@ -46,7 +56,7 @@ struct Drv {
     {
         T b[CAP];
         for (int i = 0; i < CAP; i++) b[i] = a[i];
-        for (int i = 0; i < CAP; i++) if ((unsigned)i >= pos && (unsigned)i + c < n) a[i] = b[(unsigned)i + c];
+        for (int i = 0; i < CAP; i++) if ((unsigned)i >= pos && (unsigned)i + c < n && (unsigned)i + c < CAP) a[i] = b[(unsigned)i + c];
         n -= c;
     }
 
@@ -89,8 +99,8 @@ struct Drv {
     void pin(PV& v)
     {
         const unsigned want = heap ? n + NS + 1 : n;
-        if (rawsize_of(v) != want) ok_rep = false;
-        rawsize_of(v) = want;
+        if (v._size != want) ok_rep = false;
+        v._size = want;
     }
 
     enum Mode { M_GROW, M_KEEP, M_SHRINK, M_TAKEN };
